@@ -396,4 +396,70 @@ theorem resolve_existing {fs : Fs} (hc : Closed fs) : ∀ (cs : List Bytes) (cur
         have := ih (cur ++ [c]) f (by simpa using hs) hdd.2 (by simp at hf; omega)
         simpa using this
 
+/-! ### one step: `Step O fs fs'` (parts (1), (2) of `OutsideSame`; part (3) follows from `Sane fs'`) -/
+
+structure Step (O : Path) (fs fs' : Fs) : Prop where
+  nodes : fs'.nodes.filter (outB O) = fs.nodes.filter (outB O)
+  content : ∀ n ∈ fs.nodes, ¬ Inside O n.1 → ∀ ino, n.2 = .file ino → fs'.content ino = fs.content ino
+
+theorem Step.refl (O : Path) (fs : Fs) : Step O fs fs := ⟨rfl, fun _ _ _ _ _ => rfl⟩
+
+theorem Step.trans {O : Path} {a b c : Fs} (h1 : Step O a b) (h2 : Step O b c) : Step O a c := by
+  refine ⟨h2.nodes.trans h1.nodes, fun n hn ho ino hi => ?_⟩
+  have hb : n ∈ b.nodes := (outside_mem_iff h1.nodes n ho).2 hn
+  rw [h2.content n hb ho ino hi, h1.content n hn ho ino hi]
+
+theorem Step.outsideSame {O : Path} {fs fs' : Fs} (h : Step O fs fs') (hs : Sane fs' O) : OutsideSame O fs fs' :=
+  ⟨h.nodes, h.content, fun n hn ho ino hi m hm hmi hm2 =>
+    hs.sep m hm n ((outside_mem_iff h.nodes n ho).2 hn) ino hm2 hi hmi ho⟩
+
+theorem OutsideSame.step {O : Path} {fs fs' : Fs} (h : OutsideSame O fs fs') : Step O fs fs' := ⟨h.nodes, h.content⟩
+
+theorem lookup_setNode_eq (fs : Fs) (p : Path) (n : Node) (hp : p ≠ []) : (fs.setNode p n).lookup p = some n := by
+  unfold Fs.lookup Fs.setNode
+  simp only [hp, if_false]
+  have : (fs.nodes.filter (·.1 != p)).find? (·.1 == p) = none := by
+    apply List.find?_eq_none.2
+    intro x hx
+    have := (List.mem_filter.1 hx).2
+    simpa using this
+  rw [List.find?_append, this]
+  simp
+
+theorem lookup_filter_true (fs : Fs) (P : Path → Bool) (q : Path) (hq : P q = true) :
+    ({ fs with nodes := fs.nodes.filter (fun n => P n.1) } : Fs).lookup q = fs.lookup q := by
+  unfold Fs.lookup
+  by_cases hn : q = []
+  · simp [hn]
+  · simp only [hn, if_false]
+    rw [find_filter_key fs.nodes P q hq]
+
+theorem lookup_filter_false (fs : Fs) (P : Path → Bool) (q : Path) (hq : P q = false) (hn : q ≠ []) :
+    ({ fs with nodes := fs.nodes.filter (fun n => P n.1) } : Fs).lookup q = none := by
+  unfold Fs.lookup
+  simp only [hn, if_false, Option.map_eq_none_iff]
+  apply List.find?_eq_none.2
+  intro x hx
+  have := (List.mem_filter.1 hx).2
+  intro e
+  have e' : x.1 = q := by simpa using e
+  rw [e', hq] at this; cases this
+
+theorem filter_out_setNode (O p : Path) (n : Node) (hin : Inside O p) (l : List (Path × Node)) :
+    ((l.filter (·.1 != p)) ++ [(p, n)]).filter (outB O) = l.filter (outB O) := by
+  have h1 : outB O (p, n) = false := by
+    cases h : outB O (p, n) with
+    | false => rfl
+    | true => exact absurd hin ((outB_iff O (p, n)).1 h)
+  rw [List.filter_append, List.filter_filter]
+  simp only [List.filter_cons, h1, List.filter_nil, Bool.false_eq_true, if_false, List.append_nil]
+  apply List.filter_congr
+  intro x _
+  cases hx : outB O x with
+  | false => simp
+  | true =>
+    have : x.1 ≠ p := by
+      intro e; rw [← e] at hin; exact ((outB_iff O x).1 hx) hin
+    simp [this]
+
 end Pna.Confined
